@@ -59,6 +59,8 @@ pub struct XCfg {
     pub mixed: bool,
     /// mixed-sink run: every call may also pick the UTF-8 or the UTF-16 slice sink (implies mixed)
     pub mixed_sink: bool,
+    /// explicit method set of a mixed run (replacement mode, sink); empty = derived from the flags
+    pub methods: Vec<(bool, Sink)>,
 }
 
 impl XCfg {
@@ -67,7 +69,7 @@ impl XCfg {
             "{}/{}/{}/{}",
             self.enc.name,
             self.sink.name(),
-            if self.mixed_sink { "mixed-sinks" } else if self.mixed { "mixed" } else if self.repl { "repl" } else { "norepl" },
+            if !self.methods.is_empty() { "mixed-methods" } else if self.mixed_sink { "mixed-sinks" } else if self.mixed { "mixed" } else if self.repl { "repl" } else { "norepl" },
             match self.bom {
                 BomMode::Off => "bom-off",
                 BomMode::Sniff => "bom-sniff",
@@ -217,8 +219,8 @@ fn units_of(c: u32, utf16: bool) -> usize {
 
 pub struct Explorer<'a> {
     cfg: &'a XCfg,
-    /// the same configuration with the other slice sink (mixed-sink runs)
-    cfg_alt: XCfg,
+    /// the same configuration with each other sink of the method set (mixed-sink runs)
+    cfg_views: Vec<XCfg>,
     /// the (replacement mode, sink) choices open to every call
     methods: Vec<(bool, Sink)>,
     chunks: Vec<Vec<u8>>,
@@ -263,16 +265,24 @@ impl<'a> Explorer<'a> {
             }
         }
         let chunks_undecided = if cfg.syms_undecided.is_empty() { vec![] } else { build_chunks(&all, cfg.k) };
-        let mut cfg_alt = cfg.clone();
-        cfg_alt.sink = if cfg.sink.is_utf16() { Sink::Utf8 } else { Sink::Utf16 };
-        let methods: Vec<(bool, Sink)> = if cfg.mixed_sink {
+        let methods: Vec<(bool, Sink)> = if !cfg.methods.is_empty() {
+            cfg.methods.clone()
+        } else if cfg.mixed_sink {
             vec![(false, Sink::Utf8), (true, Sink::Utf8), (false, Sink::Utf16), (true, Sink::Utf16)]
         } else if cfg.mixed {
             vec![(false, cfg.sink), (true, cfg.sink)]
         } else {
             vec![(cfg.repl, cfg.sink)]
         };
-        Explorer { cfg, cfg_alt, methods, chunks: build_chunks(&cfg.syms, cfg.k), chunks_undecided, chunks_switched: if cfg.syms_switched.is_empty() { vec![] } else { build_chunks(&cfg.syms_switched, cfg.k) }, nodes: vec![], keys: vec![], index: HashIndex::new(), edges: vec![], classified: std::sync::atomic::AtomicUsize::new(0), shard: format!("xdec/{}", cfg.label()), node_seen: std::sync::Mutex::new(std::collections::HashSet::new()) }
+        let mut cfg_views: Vec<XCfg> = vec![];
+        for &(_, sk) in &methods {
+            if sk != cfg.sink && !cfg_views.iter().any(|v| v.sink == sk) {
+                let mut v = cfg.clone();
+                v.sink = sk;
+                cfg_views.push(v);
+            }
+        }
+        Explorer { cfg, cfg_views, methods, chunks: build_chunks(&cfg.syms, cfg.k), chunks_undecided, chunks_switched: if cfg.syms_switched.is_empty() { vec![] } else { build_chunks(&cfg.syms_switched, cfg.k) }, nodes: vec![], keys: vec![], index: HashIndex::new(), edges: vec![], classified: std::sync::atomic::AtomicUsize::new(0), shard: format!("xdec/{}", cfg.label()), node_seen: std::sync::Mutex::new(std::collections::HashSet::new()) }
     }
 
     fn query(&self, dec: &Decoder, n: usize, repl: bool, sink: Sink) -> Option<usize> {
@@ -567,11 +577,11 @@ impl<'a> Explorer<'a> {
     #[allow(clippy::too_many_arguments)]
     fn transition(&self, l: &mut Local, id: u32, key: &Key, src: &[u8], last: bool, fresh: bool, cap: usize, dalign: u8, salign: u8, repl: bool, sink: Sink) {
         // the view of the configuration with this call's sink (mixed-sink runs)
-        let cfg: &XCfg = if sink == self.cfg.sink { self.cfg } else { &self.cfg_alt };
+        let cfg: &XCfg = if sink == self.cfg.sink { self.cfg } else { self.cfg_views.iter().find(|v| v.sink == sink).expect("view for sink") };
         let or = &cfg.or;
         let min = cfg.sink.min_cap();
         let base_fill: u8 = if cfg.sink == Sink::Str { 0x25 } else { 0xA5 };
-        let method = if cfg.mixed_sink { 4 + repl as u8 + 2 * sink.is_utf16() as u8 } else if cfg.mixed { repl as u8 } else { 2 };
+        let method = if cfg.mixed_sink || !cfg.methods.is_empty() { Call::method_of(repl, sink) } else if cfg.mixed { repl as u8 } else { 2 };
         let call = Call { src: src.to_vec(), cap, last, fill: base_fill, dalign, salign, method };
         l.stats.transitions += 1;
         let mut dec = key.dec.clone();
